@@ -7,9 +7,14 @@ from observe import pyham, ag, pathof, taxS, nodekey, gtax, genomes_of, all_node
 from core import Result, Infra
 
 TIERS = {'quick': 1, 'thorough': 12}
+# thorough multipliers per property (cases are more expensive for some checks)
+THOROUGH = {'C08': 6, 'C11': 5, 'C12': 6, 'C13': 2, 'C14': 3, 'C15': 6, 'C17': 5, 'C20': 6}
+_CURRENT = [None]
 
 def budget(tier, quick_n):
-    return quick_n * TIERS[tier]
+    if tier == 'thorough':
+        return quick_n * THOROUGH.get(_CURRENT[0], TIERS['thorough'])
+    return quick_n
 
 def mix_params(rng):
     r = rng.random()
@@ -29,6 +34,8 @@ def std_dataset(rng, **kw):
         kw['maxleaves'] = rng.choice([3, 4, 5, 6, 8, 8, 10, 12])
     if kw['P'].get('elide', 0) > 0.9 and 'top_positions' not in kw:
         kw['top_positions'] = 'root'
+    if kw['P'].get('chainy', 0) > 0.3 and rng.random() < 0.5:
+        kw['maxleaves'] = max(kw['maxleaves'], rng.choice([9, 11, 13]))
     D = gen.make_dataset(rng, **kw)
     return D
 
@@ -60,6 +67,7 @@ class Explorer(object):
     """generic dataset-driven exploration"""
     def __init__(self, prop, tier, seed):
         self.prop = prop; self.tier = tier; self.seed = seed
+        _CURRENT[0] = prop
         self.rng = random.Random((seed * 1000003) ^ hash(prop) % 65521 if False else seed * 1000003 + int(prop[1:]))
         self.res = Result(prop)
         self.lines = []
@@ -314,6 +322,9 @@ def c10(tier, seed): return explore_profiles('C10', tier, seed, 400)
 
 # ------------------------------------------------------------------------------------ C11
 
+def canon_int(x):
+    return x.isdigit() and str(int(x)) == x
+
 def selected_families(D, hog_ids, int_ids, ext_ids):
     decl = core.declared_map(D)
     named = set(int_ids)
@@ -359,8 +370,8 @@ def c11(tier, seed):
             ex.res.count('filter_' + kind)
             f = pyham.ParserFilter()
             # integer-typed selectors where the id looks like an integer (the API accepts both)
-            f.add_hogs_via_hogId([int(x) if x.isdigit() and ex.rng.random() < 0.5 else x for x in hog_ids])
-            f.add_hogs_via_GeneIntId([int(x) if x.isdigit() and ex.rng.random() < 0.5 else x for x in int_ids])
+            f.add_hogs_via_hogId([int(x) if canon_int(x) and ex.rng.random() < 0.5 else x for x in hog_ids])
+            f.add_hogs_via_GeneIntId([int(x) if canon_int(x) and ex.rng.random() < 0.5 else x for x in int_ids])
             f.add_hogs_via_GeneExtId(ext_ids)
             want_fams, named = selected_families(D, set(hog_ids), set(int_ids), set(ext_ids))
             pfx = 'F%d.' % fk
